@@ -63,7 +63,7 @@ func observe(dir, cwdRel string, args []string, env []string) runObs {
 func checkC13(r *report.Report, tier string, seed int64) error {
 	n := tierN(tier, 40, 600)
 	reps := tierN(tier, 6, 24)
-	r.Rule = fmt.Sprintf("accepted and rejected inputs of the general stream, inputs with several imports incl. two blank imports sharing their last path element plus a notation using that name, each run %d times in fresh processes: from the package directory with a relative path, from the module root, with an absolute path, with extra environment variables, with a different TMPDIR, a second time in place under the environment go generate sets for a directive of another package (GOPACKAGE, GOLINE, ...), and concurrently; plus histories (run, edit an imported package in another directory, run) compared with a run from a clean copy; observables: exit status, normalised stderr, stdout, output bytes; non-trivial = the run produced an output file or a diagnostic; distinct by file contents", reps)
+	r.Rule = fmt.Sprintf("accepted and rejected inputs of the general stream, single-file packages (the setup file is the only source of its directory), inputs with several imports incl. two blank imports sharing their last path element plus a notation using that name, each run %d times in fresh processes: from the package directory with a relative path, from the module root, with an absolute path, with extra environment variables, with a different TMPDIR, a second time in place under the environment go generate sets for a directive of another package (GOPACKAGE, GOLINE, ...), and concurrently; plus histories (run, edit an imported package in another directory, run) compared with a run from a clean copy; observables: exit status, normalised stderr, stdout, output bytes; non-trivial = the run produced an output file or a diagnostic; distinct by file contents", reps)
 	type job struct{ c *gen.Case }
 	var jobs []job
 	opt := gen.DefaultOptions()
@@ -73,6 +73,11 @@ func checkC13(r *report.Report, tier string, seed int64) error {
 		} else {
 			jobs = append(jobs, job{gen.Generate(seed, i, opt)})
 		}
+	}
+	// packages whose only source file is the setup file (everything declared in it)
+	for k, name := range []string{"simple", "twointf", "hooks"} {
+		jobs = append(jobs, job{&gen.Case{Seed: seed, Index: 100000 + k, Files: tool.Files{"pk/setup.go": cases.Fixed[name]}, SetupPath: "pk/setup.go",
+			Features: map[string]int{"single-file-package": 1}, Struct: map[string][]gen.FieldDecl{}}})
 	}
 	var mu sync.Mutex
 	var wg sync.WaitGroup
@@ -114,6 +119,11 @@ func checkC13(r *report.Report, tier string, seed int64) error {
 					os.RemoveAll(tmp)
 					descs = append(descs, "other TMPDIR, ./ path")
 				default:
+					if _, ok := c.Files["ext/ext.go"]; !ok {
+						o = observe(dir, "", []string{"./pk/../pk/setup.go"}, nil)
+						descs = append(descs, "cwd=module root, unclean path")
+						break
+					}
 					o = observe(dir, "ext", []string{"../pk/setup.go"}, nil)
 					descs = append(descs, "cwd=sibling package, ../ path")
 				}
